@@ -38,6 +38,8 @@ pub struct Scope {
     /// number of DynamicRootSets in the root (0..=2) and handle slots
     pub sets: u8,
     pub handles: u8,
+    /// product scope: handles may move into heap values of the other arena
+    pub lend: bool,
     /// integer metric counters are part of the canonical state
     pub metrics_canon: bool,
     /// 'allocated during the running sweep' flags are part of the canonical state
@@ -85,6 +87,7 @@ pub const BASE: Scope = Scope {
     pcallbacks: false,
     sets: 0,
     handles: 0,
+    lend: false,
     metrics_canon: false,
     born_canon: false,
     natural: false,
@@ -150,6 +153,8 @@ pub fn scope(name: &str) -> Option<Scope> {
         // product components (C20)
         "P1" => Scope { name: "P1", n: 1, r: 1, k: 1, weak: true, copyroot: false, upgrade_ops: false, wrap: false, sets: 1, handles: 1, ..BASE },
         "P2" => Scope { name: "P2", n: 2, r: 1, k: 1, weak: true, copyroot: false, upgrade_ops: false, wrap: false, sets: 1, handles: 1, ..BASE },
+        "P1l" => Scope { name: "P1l", n: 1, r: 1, k: 1, weak: false, copyroot: false, upgrade_ops: false, wrap: false, sets: 1, handles: 1, lend: true, ..BASE },
+        "P2l" => Scope { name: "P2l", n: 2, r: 1, k: 1, weak: false, copyroot: false, upgrade_ops: false, wrap: false, sets: 1, handles: 2, lend: true, ..BASE },
         _ => return None,
     };
     Some(s)
